@@ -79,6 +79,18 @@ def gen(rng, tier, index):
         "dir_order": rng.choice(["sorted", "reverse", "s%d" % rng.randint(0, 9)]),
         "mode": "apply_to" if rng.random() < 0.8 else "as_completed",
     }
+    # records already in the output store when apply_to starts (append mode): their
+    # identifiers are related to, but different from, the inputs'; every input must
+    # still be processed and they must be left alone
+    plan["preexisting"] = []
+    if rng.random() < 0.3:
+        rel = []
+        for s in stems:
+            rel += [rng.choice("ab") + s, s + rng.choice("ab"), s[1:] if len(s) > 1 else s + "z"]
+        rel = [r for r in dict.fromkeys(rel) if r and r not in stems][: rng.randint(1, 3)]
+        plan["preexisting"] = [{"stem": r, "kind": rng.choice(["completed", "completed", "nc"])} for r in rel]
+        if plan["preexisting"]:
+            plan["out_mode"] = "a"
     if plan["input_form"] == "objects":
         # in-memory collections (carrying .info.source) fed to steps + writer
         for i in plan["inputs"]:
@@ -360,6 +372,23 @@ def run(plan, tier="quick", real_pool=False) -> RunResult:
                         res.add(f"C14.wrong-identifier/as_completed{idc}", f"unexpected sources {sorted(seen)}", replay)
             else:
                 out_path = os.path.join(root, "out")
+                pre = {}
+                if plan.get("preexisting"):
+                    seed_store = open_out(plan, out_path, "w")
+                    for k, rec in enumerate(plan["preexisting"]):
+                        payload = f">pre{k}\nACGTACGT\n" if wr != "db" else f"pre{k}".encode()
+                        if wr == "json":
+                            payload = json.dumps({"pre": k})
+                        if rec["kind"] == "completed":
+                            seed_store.write(unique_id=rec["stem"], data=payload)
+                        else:
+                            nid = rec["stem"] if wr == "db" else f"{rec['stem']}.json"
+                            seed_store.write_not_completed(unique_id=nid, data=payload)
+                        pre[rec["stem"]] = (rec["kind"] if rec["kind"] == "completed" else "nc", payload)
+                    if hasattr(seed_store, "close"):
+                        seed_store.close()
+                    sql.close_all()
+                    res.probe("output-store-prepopulated")
                 out = open_out(plan, out_path, plan["out_mode"])
                 app, _ = build_app(plan, out, with_writer=True)
                 raised = None
@@ -438,7 +467,16 @@ def run(plan, tier="quick", real_pool=False) -> RunResult:
                                 elif (a[0], a[1]) != (pred[1], pred[2]):
                                     res.add(f"C14.passthrough/{pred[1]}:stored",
                                             f"[{who}] failure record {stem!r} is {a[:2]}, plan predicts {pred[1:]}", replay)
-                        extra = sorted(set(v) - set(stems))
+                        for pstem, (pkind, ppayload) in pre.items():
+                            got = v.get(pstem)
+                            same = got is not None and got[0] == pkind and (
+                                got[1] == ppayload or (isinstance(got[1], str) and isinstance(ppayload, bytes)
+                                                       and got[1].encode() == ppayload))
+                            if not same:
+                                res.add(f"C14.preexisting-changed/{wr}{idc}:{pkind}",
+                                        f"[{who}] record {pstem!r} that was in the store before apply_to is now "
+                                        f"{got and (got[0], str(got[1])[:40])}; inputs={stems}", replay)
+                        extra = sorted(set(v) - set(stems) - set(pre))
                         if extra:
                             res.add(f"C14.wrong-identifier/{wr}{idc}",
                                     f"[{who}] records under identifiers that are no input: {extra}; inputs={stems}; "
@@ -503,7 +541,7 @@ def describe(plan):
 
 MINIMISE_KW = {"protect": ("engine", "idclass", "stem", "kind", "tag", "writer", "out_mode", "input_form",
                            "dir_order", "mode", "min_length"),
-               "list_keys": ("inputs", "steps", "choices", "durations", "services"),
+               "list_keys": ("inputs", "steps", "choices", "durations", "services", "preexisting"),
                "budget_s": 40.0, "max_tries": 150}
 
 # the first N runs are repeated in interpreters with another PYTHONHASHSEED
